@@ -653,4 +653,125 @@ example (P : Prims) :
     instancecheck (fun _ => true) (parseTyped P d) (.seq .list [.int 1, .int (-2), .int (-1)]) = false := by
   constructor <;> rfl
 
+/-! ### parametrising a constrained (sub)class keeps its constraints; a constrained member of a union is always parsed -/
+
+theorem filterMap_congr_mem {α β : Type} (f g : α → Option β) :
+    ∀ l : List α, (∀ x ∈ l, f x = g x) → l.filterMap f = l.filterMap g := by
+  intro l
+  induction l with
+  | nil => intro _; rfl
+  | cons a l ih =>
+    intro h
+    simp only [List.filterMap_cons, h a (by simp), ih (fun x hx => h x (by simp [hx]))]
+
+theorem lookup_argsBody (mro : List Body) (args : PyVal) (e : Bool) (key : String)
+    (h1 : key ≠ "__args__") (h2 : key ≠ "__ellipsis_args__") :
+    lookup (getitemMro mro args e) key = lookup mro key := by
+  unfold getitemMro argsBody
+  have e1 : (key == "__args__") = false := by simpa using h1
+  have e2 : (key == "__ellipsis_args__") = false := by simpa using h2
+  cases e <;> simp [lookup, List.lookup, e1, e2]
+
+/-- **`Sub[item]` has exactly the validators of `Sub`** — whatever `Sub` inherits, adds, overrides or cancels, at any
+depth: the compiled list is that of the class that was subscripted -/
+theorem C02_class_getitem_compile (mro : List Body) (args : PyVal) (e : Bool) :
+    compile (getitemMro mro args e) = compile mro := by
+  unfold compile collect
+  congr 1
+  apply filterMap_congr_mem
+  intro key hk
+  have h1 : key ≠ "__args__" := by
+    intro h; subst h; revert hk; decide
+  have h2 : key ≠ "__ellipsis_args__" := by
+    intro h; subst h; revert hk; decide
+  rw [lookup_argsBody mro args e key h1 h2]
+
+/-- … and its contains / min_contains / max_contains -/
+theorem C02_class_getitem_contains (mro : List Body) (args : PyVal) (e : Bool) :
+    containsCfg (getitemMro mro args e) = containsCfg mro := by
+  unfold containsCfg
+  rw [lookup_argsBody mro args e "contains" (by decide) (by decide),
+    lookup_argsBody mro args e "min_contains" (by decide) (by decide),
+    lookup_argsBody mro args e "max_contains" (by decide) (by decide)]
+
+/-- the worked example: `class U(list, Rule): unique_items = True; class S(U): max_length = 3; S[int]` -/
+theorem C02_class_getitem_example :
+    compile (getitemMro [[("max_length", .val (.int 3) false)], [("unique_items", .val (.bool true) false)]]
+      (.seq .tuple [.opaque 0]) false) = [("max_length", .int 3), ("unique_items", .bool true)] := by
+  rw [C02_class_getitem_compile]
+  simp [compile, collect, lookup, List.lookup, vname, normalise, baseKey, Tables.constraintOrder, Py.truthy]
+
+theorem tryMembers_rule_first (p : Nat → PyVal → M PyVal) (others : List Member) (i : Nat) (v : PyVal)
+    (ho : ∀ m ∈ others, ∀ r, m.run i v ≠ .ok r) :
+    tryMembers i v (.rule p :: others) = (match p i v with | .ok r => some r | .error _ => none) := by
+  simp only [tryMembers, Member.run]
+  cases p i v with
+  | ok r => rfl
+  | error e =>
+    simp only
+    induction others with
+    | nil => rfl
+    | cons m ms ih =>
+      simp only [tryMembers]
+      cases hm : m.run i v with
+      | ok r => exact absurd hm (ho m (by simp) r)
+      | error _ => exact ih (fun m' hm' => ho m' (by simp [hm']))
+
+/-- **a constrained type inside a union is never short-cut**: for a value that no plain member's class equals and that
+the other members reject at every stage, `(T | …)(v)` succeeds exactly when T's own parse succeeds at some stage, with
+T's result — in particular a value of T's origin type that violates T (contains, hooks, anything) is rejected -/
+theorem C02_union_member_iff (p : Nat → PyVal → M PyVal) (others : List Member) (stages : List Nat) (v r : PyVal)
+    (hex : ∀ m ∈ others, m.exact v = false)
+    (ho : ∀ i ∈ stages, ∀ m ∈ others, ∀ r, m.run i v ≠ .ok r)
+    (hst : ∀ i ∈ stages, ∀ j ∈ stages, p i v = p j v) (hne : stages ≠ []) :
+    unionParse (.rule p :: others) stages v = .ok r ↔ ∀ i ∈ stages, p i v = .ok r := by
+  unfold unionParse
+  have hany : (Member.rule p :: others).any (fun m => m.exact v) = false := by
+    rw [List.any_cons]
+    have : (others.any fun m => m.exact v) = false := by
+      rw [List.any_eq_false]; intro m hm; simp [hex m hm]
+    rw [this]; rfl
+  simp only [hany, Bool.false_eq_true, if_false]
+  induction stages with
+  | nil => exact absurd rfl hne
+  | cons i is ih =>
+    simp only [tryStages]
+    rw [tryMembers_rule_first p others i v (ho i (by simp))]
+    cases hp : p i v with
+    | ok r' =>
+      simp only [pure, Except.pure, Except.ok.injEq]
+      constructor
+      · intro h j hj; rw [← hst i (by simp) j hj, hp, h]
+      · intro h; have := h i (by simp); rw [hp] at this; injection this
+    | error e =>
+      simp only
+      by_cases hn : is = []
+      · subst hn
+        simp only [tryStages, throw, throwThe, MonadExceptOf.throw]
+        constructor
+        · intro h; cases h
+        · intro h; have := h i (by simp); rw [hp] at this; cases this
+      · have hih := ih (fun j hj => ho j (List.mem_cons_of_mem _ hj))
+          (fun a ha b hb => hst a (List.mem_cons_of_mem _ ha) b (List.mem_cons_of_mem _ hb)) hn
+        constructor
+        · intro h j hj
+          have h' := hih.mp h
+          rcases List.mem_cons.mp hj with rfl | hj'
+          · obtain ⟨k, hk⟩ := List.exists_mem_of_ne_nil is hn
+            rw [hst _ (by simp) k (by simp [hk])]; exact h' k hk
+          · exact h' j hj'
+        · intro h; exact hih.mpr (fun j hj => h j (by simp [hj]))
+
+/-- the exact-type fast path of a union never applies to a member that is a constrained type -/
+theorem C02_union_exact_not_rule (p : Nat → PyVal → M PyVal) (v : PyVal) : (Member.rule p).exact v = false := rfl
+
+/-- non-vacuity / the `(HasPositive | None)([-1, -2])` example: the contains-only member is consulted and rejects -/
+example (P : Prims) :
+    let d : Decl := { validators := [], args := none, cont := ⟨true, none, some 2⟩,
+                      acc := fun x => match x with | .int i => decide (0 < i) | _ => false, post := pure }
+    let none_ : Member := .plain .noneType (fun _ _ => .error .typeError)
+    unionParse [.rule (fun _ => parseTyped P d), none_] [0, 1, 2] (.seq .list [.int (-1), .int (-2)]) = .error .valueError ∧
+    unionParse [.rule (fun _ => parseTyped P d), none_] [0, 1, 2] (.seq .list [.int 1, .int (-2)]) = .ok (.seq .list [.int 1, .int (-2)]) := by
+  constructor <;> rfl
+
 end Utv.C02
